@@ -557,4 +557,234 @@ theorem cuboidTriangleAssemble2_spec (pos12 : Iso2 K) (hq : UnitC pos12) (he1 a 
   · intro k hk
     exact (hc k hk).2.2.2
 
+/-! ## SAT against a support map; `contact_manifold_cuboid_triangle` (2-D, cuboid first) after a failed warm start -/
+
+/-- `supp` is a support function of the set `S`: it returns a point of `S` maximising `·dir` over `S` -/
+def IsSupport (S : V2 K → Prop) (supp : V2 K → V2 K) : Prop :=
+  letI := fieldNum K sq
+  ∀ dir, S (supp dir) ∧ ∀ q, S q → q.dot dir ≤ (supp dir).dot dir
+
+/-- `SepExact` for arbitrary sets: `s` is exactly the separation of `S1` and `pos12·S2` along the unit axis `n` -/
+def SepExactS (pos12 : Iso2 K) (S1 S2 : V2 K → Prop) (s : K) (n : V2 K) : Prop :=
+  letI := fieldNum K sq
+  n.dot n = 1 ∧ (∀ x y, S1 x → S2 y → s ≤ ((pos12.act y).sub x).dot n) ∧
+  ∃ x y, S1 x ∧ S2 y ∧ s = ((pos12.act y).sub x).dot n
+
+/-- `support_map_support_map_compute_separation`: along a unit axis `n`, `(support₂(−n) − support₁(n))·n` is the exact separation -/
+private theorem sep_support (pos12 : Iso2 K) (S1 S2 : V2 K → Prop) (supp1 supp2 : V2 K → V2 K)
+    (h1 : IsSupport sq S1 supp1) (h2 : IsSupport sq S2 supp2) (n : V2 K)
+    (hn : letI := fieldNum K sq; n.dot n = 1) :
+    letI := fieldNum K sq
+    SepExactS sq pos12 S1 S2 (((supportToward2 supp2 pos12 n.neg).sub (supp1 n)).dot n) n := by
+  refine ⟨hn, ?_, ?_⟩
+  · intro x y hx hy
+    have a := (h1 n).2 x hx
+    have b := (h2 (@Iso2.invRot K (fieldNum K sq) pos12 (@V2.neg K (fieldNum K sq) n))).2 y hy
+    simp only [supportToward2, Iso2.act, Iso2.rot, Iso2.invRot, V2.add, V2.sub, V2.neg, V2.dot] at a b ⊢
+    linarith
+  · exact ⟨supp1 n, _, (h1 n).1, (h2 _).1, rfl⟩
+
+private theorem cuboid_isSupport (he : V2 K) (hx : 0 ≤ he.x) (hy : 0 ≤ he.y) :
+    letI := fieldCopysign K
+    IsSupport sq (@Cuboid2.Mem K (fieldNum K sq) (Cuboid2.mk he)) (cuboidSupportPoint2 he) :=
+  fun dir => cuboidSupportPoint2_spec sq he dir hx hy
+
+private theorem tri_isSupport (a b c : V2 K) :
+    IsSupport sq (@Triangle2.Mem K (fieldNum K sq) (Triangle2.mk a b c)) (@triSupportPoint2 K (fieldNum K sq) a b c) := by
+  intro dir
+  obtain ⟨hv, hmax⟩ := triSupportPoint2_spec sq a b c dir
+  refine ⟨?_, hmax⟩
+  have ma : @Triangle2.Mem K (fieldNum K sq) (Triangle2.mk a b c) a := (tri_edge_mem sq a b c a).1 ⟨0, le_rfl, zero_le_one, by
+    apply V2.ext' <;> simp only [V2.add, V2.sub, V2.smul] <;> ring⟩
+  have mb : @Triangle2.Mem K (fieldNum K sq) (Triangle2.mk a b c) b := (tri_edge_mem sq a b c b).2.1 ⟨0, le_rfl, zero_le_one, by
+    apply V2.ext' <;> simp only [V2.add, V2.sub, V2.smul] <;> ring⟩
+  have mc : @Triangle2.Mem K (fieldNum K sq) (Triangle2.mk a b c) c := (tri_edge_mem sq a b c c).2.2 ⟨0, le_rfl, zero_le_one, by
+    apply V2.ext' <;> simp only [V2.add, V2.sub, V2.smul] <;> ring⟩
+  rcases hv with h | h | h <;> rw [h] <;> assumption
+
+/-- the loop invariant of the SAT searches: still the initial `(-Real::MAX, 0)`, or an exact separation -/
+def SatInv (pos12 : Iso2 K) (S1 S2 : V2 K → Prop) (r : K × V2 K) : Prop :=
+  letI := fieldNum K sq
+  (r = (-fmax, V2.zero) ∨ SepExactS sq pos12 S1 S2 r.1 r.2) ∧ -fmax ≤ r.1
+
+private theorem satSmStep2_inv (pos12 : Iso2 K) (he1 : V2 K) (h1x : 0 ≤ he1.x) (h1y : 0 ≤ he1.y) (S2 : V2 K → Prop)
+    (supp2 : V2 K → V2 K) (h2 : IsSupport sq S2 supp2) (i : Nat) (sign : K) (hs : sign = 1 ∨ sign = -1) (best : K × V2 K)
+    (hb : SatInv sq pos12 (@Cuboid2.Mem K (fieldNum K sq) (Cuboid2.mk he1)) S2 best) :
+    letI := fieldNum K sq
+    SatInv sq pos12 (Cuboid2.mk he1).Mem S2 (satSmStep2 he1 supp2 pos12 i sign best) := by
+  simp only [satSmStep2]
+  split_ifs with hlt
+  · refine ⟨Or.inr ?_, le_trans hb.2 (le_of_lt hlt)⟩
+    have hss : sign * sign = 1 := by rcases hs with h | h <;> rw [h] <;> ring
+    have hu : (@V2.set K (@V2.zero K (fieldNum K sq)) i sign).x * (@V2.set K (@V2.zero K (fieldNum K sq)) i sign).x +
+        (@V2.set K (@V2.zero K (fieldNum K sq)) i sign).y * (@V2.set K (@V2.zero K (fieldNum K sq)) i sign).y = 1 := by
+      by_cases hi : i = 0 <;> simp [V2.set, V2.zero, hi, hss]
+    have key := sep_support sq pos12 _ S2 _ supp2 (cuboid_isSupport sq he1 h1x h1y) h2
+      (@V2.set K (@V2.zero K (fieldNum K sq)) i sign) hu
+    have e : (@V2.get K (@supportToward2 K (fieldNum K sq) supp2 pos12 (@V2.neg K (fieldNum K sq)
+        (@V2.set K (@V2.zero K (fieldNum K sq)) i sign))) i) * sign - he1.get i =
+        @V2.dot K (fieldNum K sq) (@V2.sub K (fieldNum K sq) (@supportToward2 K (fieldNum K sq) supp2 pos12 (@V2.neg K (fieldNum K sq)
+        (@V2.set K (@V2.zero K (fieldNum K sq)) i sign))) (@cuboidSupportPoint2 K (fieldCopysign K) he1
+        (@V2.set K (@V2.zero K (fieldNum K sq)) i sign))) (@V2.set K (@V2.zero K (fieldNum K sq)) i sign) := by
+      by_cases hi : i = 0 <;> rcases hs with h | h <;> subst h <;>
+        simp [V2.get, V2.set, V2.zero, V2.dot, V2.sub, cuboidSupportPoint2, HasCopysign.copysign, hi, abs_of_nonneg h1x,
+          abs_of_nonneg h1y] <;> ring
+    rw [e]; exact key
+  · exact hb
+
+/-- **`cuboid_support_map_find_local_separating_normal_oneway`** (2-D) against ANY shape given by a support function: the
+result is the initial `(-Real::MAX, 0)` or an exact separation of the cuboid and the shape along a signed coordinate axis. -/
+theorem cuboidSupportMapOneway2_spec (pos12 : Iso2 K) (he1 : V2 K) (h1x : 0 ≤ he1.x) (h1y : 0 ≤ he1.y) (S2 : V2 K → Prop)
+    (supp2 : V2 K → V2 K) (h2 : IsSupport sq S2 supp2) :
+    letI := fieldNum K sq
+    SatInv sq pos12 (Cuboid2.mk he1).Mem S2 (cuboidSupportMapOneway2 he1 supp2 pos12) := by
+  have p1 : (1 : K) = 1 ∨ (1 : K) = -1 := Or.inl rfl
+  have m1 : (-1 : K) = 1 ∨ (-1 : K) = -1 := Or.inr rfl
+  have h0 : SatInv sq pos12 (@Cuboid2.Mem K (fieldNum K sq) (Cuboid2.mk he1)) S2 (-(@fmax K (fieldNum K sq)), @V2.zero K (fieldNum K sq)) :=
+    ⟨Or.inl rfl, le_rfl⟩
+  simp only [cuboidSupportMapOneway2]
+  exact satSmStep2_inv sq pos12 he1 h1x h1y S2 supp2 h2 1 1 p1 _
+    (satSmStep2_inv sq pos12 he1 h1x h1y S2 supp2 h2 1 (-1) m1 _
+      (satSmStep2_inv sq pos12 he1 h1x h1y S2 supp2 h2 0 1 p1 _
+        (satSmStep2_inv sq pos12 he1 h1x h1y S2 supp2 h2 0 (-1) m1 _ h0)))
+
+private theorem normSq_nonneg2' (v : V2 K) : letI := fieldNum K sq; 0 ≤ v.normSq := by
+  simp only [V2.normSq, V2.dot]; nlinarith [mul_self_nonneg v.x, mul_self_nonneg v.y]
+
+/-- `Unit::try_new(v, e) = Some(n)`: `n` is a unit vector -/
+private theorem tryNew2_unit (hs : LawfulSqrt sq) (v n : V2 K) (e : K)
+    (h : letI := fieldNum K sq; tryNew2 v e = some n) :
+    letI := fieldNum K sq
+    n.dot n = 1 := by
+  simp only [tryNew2] at h
+  split_ifs at h with hpos
+  simp only [Option.some.injEq] at h
+  have hn := hs.sq_mul _ (normSq_nonneg2' sq v)
+  have hpos' : 0 < @V2.normSq K (fieldNum K sq) v := lt_of_le_of_lt (mul_self_nonneg e) hpos
+  simp only [fieldNum_sqrt] at h
+  set c := sq (@V2.normSq K (fieldNum K sq) v) with hc
+  have hc0 : c ≠ 0 := by
+    intro hz; rw [hz] at hn; simp at hn; rw [← hn] at hpos'; exact lt_irrefl _ hpos'
+  subst h
+  simp only [V2.normSq, V2.dot] at hn
+  simp only [V2.dot, V2.sdiv]; field_simp; linear_combination (-1 : K) * hn
+
+private theorem triEdgeStep2_inv (hs : LawfulSqrt sq) (pos12 : Iso2 K) (a b c : V2 K) (S2 : V2 K → Prop)
+    (supp2 : V2 K → V2 K) (h2 : IsSupport sq S2 supp2) (ea eb : V2 K) (best : K × V2 K)
+    (hb : SatInv sq pos12 (@Triangle2.Mem K (fieldNum K sq) (Triangle2.mk a b c)) S2 best) :
+    letI := fieldNum K sq
+    SatInv sq pos12 (Triangle2.mk a b c).Mem S2 (triEdgeStep2 a b c supp2 pos12 ea eb best) := by
+  simp only [triEdgeStep2]
+  cases hN : @segNormal2 K (fieldNum K sq) ea eb with
+  | none => exact hb
+  | some n =>
+    simp only []
+    have hu := tryNew2_unit sq hs _ n _ hN
+    split_ifs with hlt
+    · exact ⟨Or.inr (sep_support sq pos12 _ S2 _ supp2 (tri_isSupport sq a b c) h2 n hu), le_trans hb.2 (le_of_lt hlt)⟩
+    · exact hb
+
+/-- **`triangle_support_map_find_local_separating_normal_oneway`** (2-D; `triangle_cuboid_…` is this function): the result is the
+initial `(-Real::MAX, 0)` or an exact separation of the triangle and the other shape along the unit normal of an edge. -/
+theorem triangleSupportMapOneway2_spec (hs : LawfulSqrt sq) (pos12 : Iso2 K) (a b c : V2 K) (S2 : V2 K → Prop)
+    (supp2 : V2 K → V2 K) (h2 : IsSupport sq S2 supp2) :
+    letI := fieldNum K sq
+    SatInv sq pos12 (Triangle2.mk a b c).Mem S2 (triangleSupportMapOneway2 a b c supp2 pos12) := by
+  have h0 : SatInv sq pos12 (@Triangle2.Mem K (fieldNum K sq) (Triangle2.mk a b c)) S2 (-(@fmax K (fieldNum K sq)), @V2.zero K (fieldNum K sq)) :=
+    ⟨Or.inl rfl, le_rfl⟩
+  simp only [triangleSupportMapOneway2]
+  exact triEdgeStep2_inv sq hs pos12 a b c S2 supp2 h2 c a _
+    (triEdgeStep2_inv sq hs pos12 a b c S2 supp2 h2 b c _ (triEdgeStep2_inv sq hs pos12 a b c S2 supp2 h2 a b _ h0))
+
+private theorem sepExactS_flip (pos12 : Iso2 K) (hq : UnitC pos12) (S1 S2 : V2 K → Prop) (s : K) (n : V2 K)
+    (h : letI := fieldNum K sq; SepExactS sq pos12.inverse S2 S1 s n) :
+    letI := fieldNum K sq
+    SepExactS sq pos12 S1 S2 s (pos12.rot n.neg) := by
+  obtain ⟨hn, hall, x, y, hx, hy, he⟩ := h
+  refine ⟨?_, ?_, ?_⟩
+  · unfold UnitC at hq
+    simp only [Iso2.rot, V2.neg, V2.dot] at hn ⊢
+    linear_combination (n.x * n.x + n.y * n.y) * hq + hn
+  · intro x' y' hx' hy'
+    rw [flip_dot sq pos12 hq]
+    exact hall y' x' hy' hx'
+  · refine ⟨y, x, hy, hx, ?_⟩
+    rw [flip_dot sq pos12 hq]
+    exact he
+
+/-- **`contact_manifold_cuboid_triangle` (2-D, cuboid first, no normal constraints) after a failed warm start.**
+If one of the two SAT passes exceeds the prediction the manifold is cleared and the shapes ARE separated by more than the prediction
+along a unit axis; otherwise: unit normals with `pos12·n2 = −n1` exactly, no contact or two, each with the `dist` identity,
+`local_p1` in the cuboid, `local_p2` in the triangle, witnesses facing each other; `n1` is an axis along which the exact separation
+of the two shapes is the larger SAT value, and no contact is deeper than that. -/
+theorem cuboidTriangleFresh2_spec (hs : LawfulSqrt sq) (pos12 : Iso2 K) (hq : UnitC pos12) (he1 a b c : V2 K)
+    (h1x : 0 ≤ he1.x) (h1y : 0 ≤ he1.y) (pred : K) (hp : 0 ≤ pred) (m : Manifold2 K)
+    (hs1 : letI := fieldNum K sq; -fmax < (cuboidSupportMapOneway2 he1 (triSupportPoint2 a b c) pos12).1)
+    (hs2 : letI := fieldNum K sq; letI := fieldCopysign K;
+      -fmax < (triangleSupportMapOneway2 a b c (cuboidSupportPoint2 he1) pos12.inverse).1) :
+    letI := fieldNum K sq
+    letI := fieldCopysign K
+    let s1 := (cuboidSupportMapOneway2 he1 (triSupportPoint2 a b c) pos12).1
+    let s2 := (triangleSupportMapOneway2 a b c (cuboidSupportPoint2 he1) pos12.inverse).1
+    let m' := cuboidTriangleFresh2 pos12 pos12.inverse he1 a b c pred false m
+    (pred < s1 ∨ pred < s2 → m' = m.clear ∧
+      ∃ s n, pred < s ∧ SepExactS sq pos12 (Cuboid2.mk he1).Mem (Triangle2.mk a b c).Mem s n) ∧
+    (¬(pred < s1 ∨ pred < s2) →
+      GoodManifold2 sq pos12 (Cuboid2.mk he1).Mem (Triangle2.mk a b c).Mem m' ∧
+      (m'.points.length = 0 ∨ m'.points.length = 2) ∧
+      SepExactS sq pos12 (Cuboid2.mk he1).Mem (Triangle2.mk a b c).Mem (max s1 s2) m'.n1 ∧
+      ∀ k ∈ m'.points, max s1 s2 ≤ k.dist) := by
+  intro s1 s2 m'
+  have hq' := unitC_inverse sq pos12 hq
+  obtain ⟨d1, -⟩ := cuboidSupportMapOneway2_spec sq pos12 he1 h1x h1y _ _ (tri_isSupport sq a b c)
+  obtain ⟨d2, -⟩ := triangleSupportMapOneway2_spec sq hs (@Iso2.inverse K (fieldNum K sq) pos12) a b c _ _
+    (cuboid_isSupport sq he1 h1x h1y)
+  have E1 := d1.resolve_left (fun d => by rw [d] at hs1; exact lt_irrefl _ hs1)
+  have E2 := sepExactS_flip sq pos12 hq _ _ _ _ (d2.resolve_left (fun d => by rw [d] at hs2; exact lt_irrefl _ hs2))
+  have c3 : ¬ pred < -(@fmax K (fieldNum K sq)) := by
+    have := fmax_nonneg sq (K := K)
+    intro h; linarith
+  -- what the assembly gives for a reference normal with exact separation `s`
+  have fin : ∀ (s : K) (n : V2 K), SepExactS sq pos12 (@Cuboid2.Mem K (fieldNum K sq) (Cuboid2.mk he1))
+      (@Triangle2.Mem K (fieldNum K sq) (Triangle2.mk a b c)) s n →
+      let r := @cuboidTriangleAssemble2 K (fieldNum K sq) (fieldCopysign K) pos12 (@Iso2.inverse K (fieldNum K sq) pos12) he1 a b c n false m
+      GoodManifold2 sq pos12 (@Cuboid2.Mem K (fieldNum K sq) (Cuboid2.mk he1)) (@Triangle2.Mem K (fieldNum K sq) (Triangle2.mk a b c)) r ∧
+      (r.points.length = 0 ∨ r.points.length = 2) ∧
+      SepExactS sq pos12 (@Cuboid2.Mem K (fieldNum K sq) (Cuboid2.mk he1)) (@Triangle2.Mem K (fieldNum K sq) (Triangle2.mk a b c)) s r.n1 ∧
+      ∀ k ∈ r.points, s ≤ k.dist := by
+    intro s n hE r
+    obtain ⟨g, hl, -⟩ := cuboidTriangleAssemble2_spec sq pos12 hq he1 a b c n h1x h1y hE.1 m
+    have hn1 : r.n1 = n := by
+      obtain ⟨a1, b1, e1, -, -⟩ := cuboidSupportFace2_mem sq he1 n h1x h1y
+      obtain ⟨x, y, e2, -⟩ := triSupportFace2_cases sq a b c
+        (@Iso2.rot K (fieldNum K sq) (@Iso2.inverse K (fieldNum K sq) pos12) (@V2.neg K (fieldNum K sq) n))
+      simp only [r, cuboidTriangleAssemble2]
+      rw [e1, e2]
+      simp [polyContacts2]
+    refine ⟨g, hl, by rw [hn1]; exact hE, ?_⟩
+    intro k hk
+    obtain ⟨hd, hp1, hp2⟩ := g.2.2.2 k hk
+    rw [hd, hn1]
+    exact hE.2.1 _ _ hp1 hp2
+  refine ⟨?_, ?_⟩
+  · intro h
+    by_cases c1 : pred < s1
+    · refine ⟨?_, s1, _, c1, E1⟩
+      simp only [m', cuboidTriangleFresh2]
+      rw [if_pos c1]
+    · have c2 : pred < s2 := by tauto
+      refine ⟨?_, s2, _, c2, E2⟩
+      simp only [m', cuboidTriangleFresh2]
+      rw [if_neg c1, if_pos c2]
+  · intro h
+    push Not at h
+    obtain ⟨c1, c2⟩ := h
+    simp only [m', cuboidTriangleFresh2]
+    rw [if_neg (not_lt.mpr c1), if_neg (not_lt.mpr c2), if_neg c3]
+    by_cases hb : s1 < s2
+    · rw [if_pos ⟨hb, hs2⟩, max_eq_right (le_of_lt hb)]
+      exact fin s2 _ E2
+    · rw [if_neg (fun h => hb h.1), if_neg (not_lt.mpr (le_of_lt hs1)), max_eq_left (not_lt.mp hb)]
+      exact fin s1 _ E1
+
 end C14
